@@ -26,6 +26,8 @@ type FuncResult struct {
 	Inlined   []string
 	HasSpec   bool
 	Trusted   bool
+	UsedContracts []string
+	UsedLemmas []string
 }
 
 func (P *Prog) verifyFunc(key string, sweepOnly bool) (res *FuncResult) {
@@ -41,7 +43,7 @@ func (P *Prog) verifyFunc(key string, sweepOnly bool) (res *FuncResult) {
 		res.Trusted = true
 		return
 	}
-	x := &Exec{P: P, fn: fn, key: displayKey(key), con: con, usedExt: map[string]bool{}, inlined: map[string]bool{}}
+	x := &Exec{P: P, fn: fn, key: displayKey(key), con: con, usedExt: map[string]bool{}, inlined: map[string]bool{}, usedContracts: map[string]bool{}}
 	if con != nil && con.NoSafety {
 		x.noSafe = true
 	}
@@ -108,6 +110,11 @@ func (P *Prog) verifyFunc(key string, sweepOnly bool) (res *FuncResult) {
 		res.Inlined = append(res.Inlined, k)
 	}
 	sort.Strings(res.Inlined)
+	for k := range x.usedContracts {
+		res.UsedContracts = append(res.UsedContracts, k)
+	}
+	sort.Strings(res.UsedContracts)
+	res.UsedLemmas = x.usedLemmas
 	// props: function-level props apply to every obligation without clause-level props
 	if con != nil {
 		for _, o := range res.Obls {
